@@ -35,7 +35,8 @@ deriving Repr, DecidableEq
 /-- `SafeName`'s `Display` -/
 def safeName (s : String) : String :=
   if isKeyword s then s ++ "_v"
-  else if s == "TRUE" || s == "FALSE" then s.toLower
+  else if s == "TRUE" then "true"            -- `to_lowercase()` of the two XDR booleans
+  else if s == "FALSE" then "false"
   else s
 
 /-- `NonDigitName`'s `Display` (`char::is_numeric` on the ASCII names that reach it) -/
